@@ -13,6 +13,7 @@
 //!   flush <t>                                Transaction::flush                    -> ok | err <kind>
 //!   commit <t>                               ClientState::commit (consumes t)      -> ok 0|1 | err <kind> (+ sink delta)
 //!   action <nonce> <merge-tags|-> <pub-tags|->   ClientState::action publishing the pub commands
+//!   newgraph <nonce> <pub-tags|->            ClientState::new_graph publishing the pub commands (first = init) -> ok <graph-id tag> | err <kind>
 //!   heads | committed | facts | stamp | exists | tips <t>      observations
 //!
 //! Tags are the first 8 hex digits of an id.
@@ -341,6 +342,37 @@ impl Oracle {
             out.push(m);
         }
         out
+    }
+
+    /// `new_graph`: the action publishes the init command and possibly more; all or nothing
+    fn predict_newgraph(&mut self, pubs: &[KCmd]) -> Pred {
+        let mut w = Window { fx: vec![], end: None };
+        let mut s = oracle::OFacts::default();
+        for c in pubs {
+            let (ok, fx) = rule_fx(c, &mut s);
+            w.fx.extend(fx.into_iter().map(|n| (c.id, n)));
+            if !ok {
+                w.end = Some(false);
+                if !self.accepted_ever.contains(&c.id) {
+                    self.rejected.insert(c.id);
+                }
+                return Pred { res: Err("Rejected".into()), windows: vec![w] };
+            }
+        }
+        w.end = Some(true);
+        if pubs.is_empty() {
+            return Pred { res: Err("Storage:EmptyPerspective".into()), windows: vec![w] };
+        }
+        if self.exists {
+            return Pred { res: Err("Storage:StorageExists".into()), windows: vec![w] };
+        }
+        self.exists = true;
+        self.committed = pubs.to_vec();
+        for c in pubs {
+            self.rejected.remove(&c.id);
+            self.accepted_ever.insert(c.id);
+        }
+        Pred { res: Ok(tag(pubs[0].id)), windows: vec![w] }
     }
 
     fn predict_action(&mut self, merges: &[KCmd], pubs: &[KCmd]) -> Pred {
@@ -714,6 +746,59 @@ impl World {
                 }
                 self.check_committed_state(rec, line);
             }
+            ["newgraph", nonce, ps] => {
+                let (Ok(nonce), Some(pubs)) = (nonce.parse::<u64>(), self.lookup(ps)) else {
+                    rec.line(line, "bad-op");
+                    return;
+                };
+                let act = KAction {
+                    cmds: pubs
+                        .iter()
+                        .map(|c| (c.prio.clone(), decode_body(std::str::from_utf8(&c.data).unwrap()).unwrap()))
+                        .collect(),
+                    nonce,
+                    init: true,
+                };
+                let res = vh::catch(std::panic::AssertUnwindSafe(|| self.r.client.new_graph(&[0u8; 8], act, &mut self.r.sink)));
+                let (res, returned) = match res {
+                    Ok(Ok(g)) => {
+                        let id = CmdId::from_bytes(<[u8; 32]>::try_from(g.as_bytes()).unwrap());
+                        (Ok(tag(id)), Some(g))
+                    }
+                    Ok(Err(e)) => (Err(err_kind(&e)), None),
+                    Err(p) => {
+                        rec.panics.push(format!("{}: new_graph panicked: {p}", self.label));
+                        (Err("Panic".into()), None)
+                    }
+                };
+                let ws = windows_of(&self.sink_delta());
+                let shown = ws.as_ref().map(|w| show_windows(w)).unwrap_or_else(|e| format!("!{e}"));
+                rec.line(line, format!("{} sink={}", res_line(&res), shown));
+                let pred = self.o.predict_newgraph(&pubs);
+                if pred.res != res {
+                    self.fail(rec, format!("`{line}` returned `{}` but the property text gives `{}` (the graph id is the id of the init command)", res_line(&res), res_line(&pred.res)));
+                } else {
+                    self.check_windows(rec, line, &ws, &pred.windows);
+                }
+                match &res {
+                    Ok(_) => rec.count(&format!("newgraph_ok:{}cmds", pubs.len())),
+                    Err(e) => rec.count(&format!("newgraph_err:{e}")),
+                }
+                // C10: returned GraphId == id of the init command == storage lookup key
+                if let (Some(g), Some(first)) = (returned, pubs.first()) {
+                    if g.as_bytes() != first.id.as_bytes() {
+                        self.fail(rec, format!("`{line}` returned graph id {} but the init command is {}", tag(CmdId::from_bytes(<[u8; 32]>::try_from(g.as_bytes()).unwrap())), tag(first.id)));
+                    }
+                    if self.r.client.provider().get_storage(g).is_err() {
+                        self.fail(rec, format!("`{line}`: no storage under the returned graph id"));
+                    }
+                    if self.r.client.provider().get_storage(GraphId::transmute(first.id)).is_err() {
+                        self.fail(rec, format!("`{line}`: no storage under the id of the init command {}", tag(first.id)));
+                    }
+                }
+                self.check_committed_state(rec, line);
+                self.check_second_replica(rec, line);
+            }
             ["action", nonce, ms, ps] => {
                 let (Ok(nonce), Some(merges), Some(pubs)) = (nonce.parse::<u64>(), self.lookup(ms), self.lookup(ps)) else {
                     rec.line(line, "bad-op");
@@ -837,6 +922,7 @@ impl World {
                 if ex != self.o.exists {
                     self.fail(rec, format!("storage exists = {ex}, expected {}", self.o.exists));
                 }
+                self.check_second_replica(rec, line);
             }
             ["tips", n] => {
                 let Ok(n) = n.parse::<u64>() else {
@@ -878,6 +964,59 @@ impl World {
         }
     }
 
+    /// C10: a second replica that receives the committed graph (sync = `add_commands` of the
+    /// commands, parents first, then commit) stores it under the same graph id, with the same
+    /// commands and heads
+    fn check_second_replica(&mut self, rec: &mut Recorder, why: &str) {
+        if !self.o.exists {
+            return;
+        }
+        let ids: Vec<GraphId> =
+            self.r.client.provider().list_graph_ids().map(|it| it.filter_map(|x| x.ok()).collect()).unwrap_or_default();
+        let Some(g) = ids.first().copied() else {
+            self.fail(rec, format!("{why}: the provider lists no graph"));
+            return;
+        };
+        // walk the graph under the id the provider reports (it must be the init command's id)
+        let saved = self.r.graph;
+        self.r.graph = g;
+        let cmds = self.r.committed();
+        let heads = self.r.heads();
+        self.r.graph = saved;
+        let Ok(cmds) = cmds else {
+            self.fail(rec, format!("{why}: stored graph cannot be walked"));
+            return;
+        };
+        let mut r2 = mem_replica(g);
+        let mut trx = r2.transaction();
+        let res = vh::catch(std::panic::AssertUnwindSafe(|| {
+            let a = r2.add(&mut trx, &cmds).map_err(|e| err_kind(&e))?;
+            let c = r2.commit(trx).map_err(|e| err_kind(&e))?;
+            Ok::<_, String>((a, c))
+        }));
+        rec.count("second_replica_syncs");
+        match res {
+            Ok(Ok(_)) => {
+                let ids2: Vec<GraphId> =
+                    r2.client.provider().list_graph_ids().map(|it| it.filter_map(|x| x.ok()).collect()).unwrap_or_default();
+                let c2: Vec<CmdId> = r2.committed().map(|v| v.iter().map(|c| c.id).collect()).unwrap_or_default();
+                let c1: Vec<CmdId> = cmds.iter().map(|c| c.id).collect();
+                if ids2.len() != 1 || ids2[0].as_bytes() != self.gid.as_bytes() {
+                    self.fail(rec, format!("{why}: a second replica stores the graph under another id than the init command's {}", tag(self.gid)));
+                }
+                let (mut a, mut b) = (c1.clone(), c2.clone());
+                a.sort();
+                b.sort();
+                if a != b || r2.heads() != heads {
+                    self.fail(rec, format!("{why}: a second replica that received the graph holds {} heads {} instead of {} heads {}",
+                        show_ids(&b), show_ids(&r2.heads()), show_ids(&a), show_ids(&heads)));
+                }
+            }
+            Ok(Err(e)) => self.fail(rec, format!("{why}: a second replica cannot receive the graph under its id: {e}")),
+            Err(p) => rec.panics.push(format!("{}: second replica panicked: {p}", self.label)),
+        }
+    }
+
     /// after a reported defect: make the reference follow the implementation's committed set so
     /// that later steps of the same case are still meaningful
     fn resync(&mut self, _rec: &mut Recorder) {
@@ -899,6 +1038,26 @@ impl World {
         for q in ["heads", "committed", "facts", "stamp", "exists"] {
             self.exec(rec, q);
         }
+    }
+
+    /// the commands a `new_graph` action with these specs publishes (first = init, then a chain)
+    pub fn plan_newgraph(nonce: u64, specs: &[(Priority, Vec<Op>)]) -> Vec<KCmd> {
+        let mut pubs: Vec<KCmd> = vec![];
+        let mut parent: Prior<Address> = Prior::None;
+        for (k, (prio, body)) in specs.iter().enumerate() {
+            let text = encode_body(body);
+            let id = action_cmd_id(&parent, prio, &text, nonce, k);
+            let c = KCmd {
+                id,
+                parent,
+                prio: prio.clone(),
+                policy: if matches!(parent, Prior::None) { Some(vec![0u8; 8]) } else { None },
+                data: text.into_bytes(),
+            };
+            parent = Prior::Single(c.address());
+            pubs.push(c);
+        }
+        pubs
     }
 
     /// plan and run an action publishing `specs` (priority, body) on the current heads
@@ -1075,12 +1234,54 @@ pub fn run_history(w: &mut World, rec: &mut Recorder, rng: &mut Rng, p: &Profile
         3 if cmds.len() > 1 => gid = cmds[1].id,                    // graph id names a parented command
         _ => {}
     }
+    // shapes 6/7: the graph is created by a `new_graph` action that publishes the init command
+    // and 0–3 more commands (7: the last published command writes, emits and fails)
+    let mut ng: Vec<KCmd> = vec![];
+    if p.init_shape >= 6 {
+        let extra = rng.below(4) as usize;
+        let mut specs: Vec<(Priority, Vec<Op>)> = vec![(Priority::Init, dag.nodes[0].body.clone())];
+        for _ in 0..extra {
+            specs.push((Priority::Basic(rng.below(3) as u32), gen_body(rng, &DagParams { check_pct: 0, ..p.dag.clone() })));
+        }
+        if p.init_shape == 7 {
+            specs.push((Priority::Basic(0), vec![Op::Set(1, 5), Op::Emit(4), Op::Fail]));
+        }
+        ng = World::plan_newgraph(salt, &specs);
+        // the DAG's commands hang below the published init command
+        let old = cmds[0].id;
+        let new0 = ng[0].clone();
+        for c in cmds.iter_mut() {
+            c.parent = match c.parent {
+                Prior::Single(a) if a.id == old => Prior::Single(new0.address()),
+                Prior::Merge(a, b) => Prior::Merge(if a.id == old { new0.address() } else { a }, if b.id == old { new0.address() } else { b }),
+                x => x,
+            };
+        }
+        cmds[0] = new0;
+        gid = cmds[0].id;
+    }
     rec.count(&format!("init_shape:{}", p.init_shape));
     w.exec(rec, &format!("new {}", id_hex(gid)));
     for c in &cmds {
         w.define(rec, c);
     }
     w.define(rec, &foreign);
+    if p.init_shape >= 6 {
+        for c in &ng[1..] {
+            w.define(rec, c);
+        }
+        if rng.chance(1, 8) {
+            // nothing published at all
+            w.exec(rec, &format!("newgraph {salt} -"));
+        }
+        w.exec(rec, &format!("newgraph {salt} {}", tags(&ng.iter().map(|c| c.id).collect::<Vec<_>>())));
+        w.observe(rec);
+        if rng.chance(1, 3) {
+            // creating the same graph again
+            w.exec(rec, &format!("newgraph {salt} {}", tags(&ng.iter().map(|c| c.id).collect::<Vec<_>>())));
+            w.observe(rec);
+        }
+    }
     if p.init_shape == 4 {
         w.exec(rec, "open 0");
         w.exec(rec, "add 0 -");
